@@ -173,6 +173,68 @@ func init() {
 				return false
 			})
 		}
+		if !okTbl {
+			// the table may be a `switch` over the code instead of a map literal — in PubKey itself or in an unexported helper it
+			// calls. The codes with an unmarshaller are the values of the case clauses that do not just return an error.
+			bodies := []*ast.BlockStmt{}
+			if fd := d.did.funcDecl("DID", "PubKey"); fd != nil {
+				bodies = append(bodies, fd.Body)
+				ast.Inspect(fd.Body, func(n ast.Node) bool {
+					if ce, ok := n.(*ast.CallExpr); ok {
+						if id, ok := ce.Fun.(*ast.Ident); ok {
+							if h := d.did.funcDecl("", id.Name); h != nil && h.Body != nil && !ast.IsExported(id.Name) {
+								bodies = append(bodies, h.Body)
+							}
+						}
+					}
+					return true
+				})
+			}
+			for _, b := range bodies {
+				if okTbl {
+					break
+				}
+				ast.Inspect(b, func(n ast.Node) bool {
+					sw, ok := n.(*ast.SwitchStmt)
+					if !ok || okTbl {
+						return true
+					}
+					var vals []uint64
+					all := true
+					for _, st := range sw.Body.List {
+						cc := st.(*ast.CaseClause)
+						if len(cc.List) == 0 {
+							continue // default
+						}
+						// a clause that only refuses: `return nil, <error>`
+						refuses := false
+						if len(cc.Body) == 1 {
+							if rs, ok := cc.Body[0].(*ast.ReturnStmt); ok && len(rs.Results) == 2 {
+								if id, ok := rs.Results[0].(*ast.Ident); ok && id.Name == "nil" {
+									if id2, ok := rs.Results[1].(*ast.Ident); !ok || id2.Name != "nil" {
+										refuses = true
+									}
+								}
+							}
+						}
+						for _, e := range cc.List {
+							v, _, ok := d.value(e)
+							if !ok {
+								all = false
+								continue
+							}
+							if !refuses {
+								vals = append(vals, v)
+							}
+						}
+					}
+					if all && len(vals) >= 3 {
+						tbl, okTbl = vals, true
+					}
+					return true
+				})
+			}
+		}
 		if okTbl {
 			o.line("/-- multicodec codes `DID.PubKey` has an unmarshaller for -/")
 			o.line("def pubKeyTable : List Nat := %s", leanNatList(tbl))
